@@ -7,6 +7,21 @@ from enum import Enum
 from qbee.stmt import Stmt, Block, SubBlock, FunctionBlock
 from qbee.node import Node
 from qbee.utils import convert_index_to_line_col
+from qbee.exceptions import EvalError
+
+
+def eval_consts(consts):
+    """The values of constants, for the debugger. A constant whose
+    expression cannot be evaluated (it fails at run time, where it is
+    used) has no value to show and is left out."""
+    values = {}
+    for name, const in consts.items():
+        try:
+            value = const.eval()
+        except (ArithmeticError, ValueError, EvalError):
+            continue
+        values[name] = (const.type, value)
+    return values
 
 
 class RoutineType(Enum):
@@ -85,10 +100,7 @@ class DebugInfo:
                 source_start_col=start_col,
                 source_end_line=end_line,
                 source_end_col=end_col,
-                local_consts={
-                    name: (const.type, const.eval())
-                    for name, const in node.routine.local_consts.items()
-                },
+                local_consts=eval_consts(node.routine.local_consts),
                 node=node,
             )
 
@@ -300,10 +312,7 @@ class DebugInfoCollector:
         self._empty_blocks.append(code_offset)
 
     def get_debug_info(self):
-        global_consts = {
-            name: (const.type, const.eval())
-            for name, const in self._global_consts.items()
-        }
+        global_consts = eval_consts(self._global_consts)
         dbg_info = DebugInfo(self._source_code,
                              self._empty_blocks,
                              self._compilation,
